@@ -43,7 +43,7 @@ func (m *PositionMapper) LSPToByte(pos protocol.Position) int {
 		return len(m.content)
 	}
 	byteOffset := m.lineStarts[line]
-	byteOffset += UTF16OffsetToByteOffset(m.lines[line], int(pos.Character))
+	byteOffset += UTF16OffsetToByteOffset(strings.TrimSuffix(m.lines[line], "\r"), int(pos.Character))
 	return byteOffset
 }
 
